@@ -315,8 +315,8 @@ CORPUS = [
     ["http://a.com/s?tag=rock+roll&tag=rock'n'roll", "http://a.com/s?tag=rock%2Broll&tag=rock'n'roll"],
     ["http://a.com/?a+b=1&a*b=2", "http://a.com/?a%2Bb=1&a*b=2", "http://a.com/?a%2bb=1&a*b=2"],
     ["http://a.com/p?a=%2B&b=+", "http://a.com/p?b=+&a=%2B"],
-    # KF-C03-6 (= KF-C01-5): the unquoted canonical form of a userinfo holding the escapes of U+FF20 (NFKC: '@') does
-    # not parse, so normalize_url / fingerprint_url return it unchanged
+    # FX-C01-NFKCUSERINFO (formerly KF-C03-6 = KF-C01-5): the unquoted canonical form of a userinfo holding the escapes
+    # of U+FF20 (NFKC: '@') did not parse, so normalize_url / fingerprint_url returned it unchanged
     ["http://%EF%BC%A0x@a.com/p"],
     # FX-C02-f918741 (formerly KF-C03-5): unknown scheme + empty authority
     ["localhost://?a", "custom:///p"],
@@ -572,16 +572,6 @@ def kf_platform_aware(case, failure):
     c["urls"] = [x for x in (t["u"], t["v"]) if x is not None]
     return not [f for f in failures(c) if _tail(f)["rel"] == t["rel"]]
 
-
-def kf_userinfo_nfkc_delimiter(case, failure):
-    """KF-C03-6 (= KF-C01-5 seen from C03): canonicalize_url (unquoted) decodes a userinfo character whose NFKC form
-    holds a url delimiter (U+FF20 ...), urlsplit refuses the result, so normalize_url / fingerprint_url return the
-    canonical form unchanged while they normalize u.  Recognised: relation (c1)/(c2) (or (a) on a pair), unquoted
-    mode, and u (or v) is of the class with its canonical form refused by the NFKC check."""
-    t = _tail(failure)
-    if t["quoted"] or t["rel"] not in ("a", "c1", "c2"):
-        return False
-    return any(cc.kf_userinfo_nfkc_delimiter_hit(x) for x in (t["u"], t["v"]) if x is not None)
 
 
 def kf_index_case(case, failure):
